@@ -33,7 +33,7 @@ func init() {
 		Rule: "TLS configurations {server authentication only (also with a TLS 1.3 minimum, against clients that go no further than 1.2); client certificate required and verified (harness PKI on a gldap.Server, and testdirectory.Start(WithMTLS))} x offending client behaviours {plaintext LDAP request of each of " +
 			"the seven operations carrying a unique tag; arbitrary bytes; TCP connect without ClientHello; partial ClientHello; and - where a certificate is required - a TLS 1.2 and a TLS 1.3 handshake without certificate " +
 			"followed immediately by a tagged bind (in TLS 1.3 the client finishes first, so the request is already in flight when the server rejects), a certificate from a different CA, an expired certificate, certificate-less and foreign-CA clients that offer TLS 1.0/1.1 only, and a client certificate that is valid for ANOTHER test directory / GetTLSConfig call of the same process}; plaintext requests are also followed by further writes on the same socket; a session that satisfies the configuration is closed with close_notify both ways and the client then sends a tagged plaintext request on the same TCP connection; " +
-			"run concurrently with conforming clients that are verified; also crafted chains (a foreign leaf followed by certificates the configured CA did issue), configurations that deliver their certificate or themselves through callbacks (one of them on top of a lenient outer configuration, on a server that logs at Debug level), a different configuration given to NewServer, and abandoned handshakes held open while a conforming client must be served within 10s; every server is stopped while three peers that never got through a handshake are still connected (the mux also routes the Notice-of-Disconnection name). Oracle: after each offending connection has been reported closed, no handler record (recording handlers / the test directory's own handler log) carries an offending tag. " +
+			"run concurrently with conforming clients that are verified; also crafted chains (a foreign leaf followed by certificates the configured CA did issue), configurations that deliver their certificate or themselves through callbacks (one of them on top of a lenient outer configuration, on a server that logs at Debug level), a different configuration given to NewServer, and abandoned handshakes held open while a conforming client must be served within 10s; every server is stopped while three peers that never got through a handshake are still connected (the mux also routes the Notice-of-Disconnection name); TLS ports are probed (plaintext, no certificate, conforming) after accept outages of 40ms, 400ms and 1.5s (descriptor shortage); the directory is also offered a certificate forged below its own client certificate (signed with that certificate's key, presented with it as intermediate; TLS 1.2 and 1.3). Oracle: after each offending connection has been reported closed, no handler record (recording handlers / the test directory's own handler log) carries an offending tag. " +
 			"distinct_nontrivial = distinct (configuration, behaviour, operation) combinations",
 		Assume: []string{"for the test directory, handler execution is observed through its own Info-level handler log lines (bind/search/add/modify/delete handlers log the DN) and through directory state"},
 		Phases: func(tier string, seed int64) []Phase {
